@@ -143,7 +143,9 @@ pub(crate) fn format_extern(ext: ast::Extern, explicit_abi: bool) -> Cow<'static
             Cow::from("extern ")
         }
         ast::Extern::Explicit(abi, _) => {
-            Cow::from(format!(r#"extern "{}" "#, abi.symbol_unescaped))
+            // `symbol_unescaped` is the value of the literal: escape it again to spell it.
+            let abi = abi.symbol_unescaped.as_str().escape_default().to_string();
+            Cow::from(format!(r#"extern "{abi}" "#))
         }
     }
 }
